@@ -1,2 +1,204 @@
-(* C14 - placeholder, theorems follow *)
+(* C14 - a statement that returns an error changes nothing.
+
+   FULL STATEMENT (C14_full_statement): on every state reachable by statements from a fresh
+   database, every statement that returns an error leaves `abs` (SELECT * of every table of the
+   catalog, computed through the model's own catalog trees, codec and chain scans) as it was.
+
+   STATUS: REFUTED for the code as it is (C14_refuted; recorded findings F11a-c, each with its
+   own vm_compute witness below): the engine applies the rows of a multi-row statement one by
+   one and CREATE TABLE registers the table and its columns one by one; nothing is undone when
+   a later step fails.
+
+   What IS proved for all states and statements:
+   * C14_atomic_early: if the error arises before the statement's first page change
+     (`fails_early`: unknown / duplicate table, column count, type mismatch, INT range, oversized
+     FIRST row, SET from a column, unevaluable WHERE, any failure at the FIRST matching row of
+     UPDATE / DELETE, every statement kind the engine does not execute), then no page, no catalog
+     root and no allocator field changes - only the row-id and LSN counters may have been
+     consumed - and `abs` is unchanged;
+   * C14_failed_not_logged / C14_failed_gone_after_crash: a failing statement never appends to the
+     log and never flushes, so whatever partial effects it had are gone after a crash that is not
+     preceded by a flush (they become durable only through a later flush). *)
+From Coq Require Import List NArith ZArith String.
 From Mkdb Require Import Spec.HistObs.
+From Mkdb Require Import Proofs.Atomic.
+Import ListNotations.
+Local Open Scope string_scope.
+
+(* ---- proved part ---- *)
+Theorem C14_atomic_early : forall s st e,
+  e_out (run_stmt s st) = OErr e -> fails_early s st = true ->
+  abs (e_store (run_stmt s st)) = abs s /\ same_pages s (e_store (run_stmt s st)).
+Proof.
+  intros s st e Ho Hfe. split; [eapply fails_early_abs | eapply fails_early_same_pages]; eauto.
+Qed.
+Print Assumptions C14_atomic_early.
+
+Theorem C14_failed_not_logged : forall y st e,
+  snd (exec y st) = OErr e -> wal (fst (exec y st)) = wal y /\ disk (fst (exec y st)) = disk y.
+Proof.
+  intros y st e H. unfold exec in *. cbv zeta in *. cbn [fst snd wal disk] in *.
+  destruct (run_stmt_err_batch _ _ _ H) as [Hb Hf]. rewrite H, Hf. cbn [is_ok]. split; reflexivity.
+Qed.
+Print Assumptions C14_failed_not_logged.
+
+(* crash + restart right after a failed statement = crash + restart right before it *)
+Theorem C14_failed_gone_after_crash : forall y st e,
+  snd (exec y st) = OErr e -> recover (fst (exec y st)) = recover y.
+Proof.
+  intros y st e H. destruct (C14_failed_not_logged y st e H) as [Hw Hd].
+  unfold recover. rewrite Hw, Hd. reflexivity.
+Qed.
+Print Assumptions C14_failed_gone_after_crash.
+
+(* ---- the full statement and its refutation ---- *)
+Definition C14_stmts_only (evs : list event) : bool :=
+  forallb (fun e => match e with EvStmt _ => true | _ => false end) evs.
+
+Definition C14_full_statement : Prop :=
+  forall evs y os st e,
+    C14_stmts_only evs = true ->
+    run_events init_sys evs = (SOk y, os) ->
+    e_out (run_stmt (mem y) st) = OErr e ->
+    abs (e_store (run_stmt (mem y) st)) = abs (mem y).
+
+Fixpoint rep_string (n : nat) : string :=
+  match n with O => "" | S k => String "x" (rep_string k) end.
+
+Definition sys_after (evs : list event) : sys :=
+  match fst (run_events init_sys evs) with SOk y => y | _ => init_sys end.
+
+(* a recorded witness: a statement history, then a statement that fails with `e` and changes abs *)
+Definition C14_witness (evs : list event) (st : stmt) (e : err) : Prop :=
+  C14_stmts_only evs = true /\
+  run_events init_sys evs = (SOk (sys_after evs), snd (run_events init_sys evs)) /\
+  e_out (run_stmt (mem (sys_after evs)) st) = OErr e /\
+  fails_early (mem (sys_after evs)) st = false /\
+  abs (e_store (run_stmt (mem (sys_after evs)) st)) <> abs (mem (sys_after evs)).
+
+(* F11a: CREATE TABLE t (a INT); INSERT INTO t VALUES (1), (2147483648)
+   -> "integer value out of range", and row 1 is in the table *)
+Definition w1_evs : list event := [EvStmt (SCreateTable "t" [mkColDef "a" STNumeric])].
+Definition w1_st : stmt := SInsert "t" [] [[VInt 1]; [VInt 2147483648]].
+
+Example C14_witness_insert_row2 : C14_witness w1_evs w1_st EIntRange.
+Proof.
+  unfold C14_witness.
+  split; [vm_compute; reflexivity|]. split; [vm_compute; reflexivity|].
+  split; [vm_compute; reflexivity|]. split; [vm_compute; reflexivity|].
+  intros H. vm_compute in H. discriminate H.
+Qed.
+
+Example C14_witness_insert_row2_visible :
+  st_fetch (e_store (run_stmt (mem (sys_after w1_evs)) w1_st)) "t" = Ok ([(11%N, [VInt 1])], [mkFld "" "a"]) /\
+  st_fetch (mem (sys_after w1_evs)) "t" = Ok ([], [mkFld "" "a"]).
+Proof. split; vm_compute; reflexivity. Qed.
+
+(* F11b: CREATE TABLE t (a INT, b VARCHAR(400), c VARCHAR(400));
+   INSERT INTO t VALUES (1, 'x', 'y'), (2, 'x', '<300 chars>'); UPDATE t SET b = '<200 chars>'
+   -> row 1 becomes 216 bytes (fits) and is rewritten; row 2 would be 515 bytes (> 400):
+   "row too large" is returned and row 1 stays updated *)
+Definition w2_evs : list event :=
+  [EvStmt (SCreateTable "t" [mkColDef "a" STNumeric; mkColDef "b" (STVarchar 400); mkColDef "c" (STVarchar 400)]);
+   EvStmt (SInsert "t" [] [[VInt 1; VStr "x"; VStr "y"]; [VInt 2; VStr "x"; VStr (rep_string 300)]])].
+Definition w2_st : stmt := SUpdate "t" [("b", XLit (VStr (rep_string 200)))] None.
+
+Example C14_witness_update_row2 : C14_witness w2_evs w2_st ERowTooLarge.
+Proof.
+  unfold C14_witness.
+  split; [vm_compute; reflexivity|]. split; [vm_compute; reflexivity|].
+  split; [vm_compute; reflexivity|]. split; [vm_compute; reflexivity|].
+  intros H. vm_compute in H. discriminate H.
+Qed.
+
+Example C14_witness_update_row2_visible :
+  (match st_fetch (e_store (run_stmt (mem (sys_after w2_evs)) w2_st)) "t" with
+   | Ok (rows, _) => map (fun r => (fst r, map (fun v => match v with VStr s => VInt (Z.of_nat (String.length s)) | x => x end) (snd r))) rows
+   | _ => []
+   end) = [(13%N, [VInt 1; VInt 200; VInt 1]); (14%N, [VInt 2; VInt 1; VInt 300])].
+Proof. vm_compute. reflexivity. Qed.
+
+(* F11c: CREATE TABLE t (a INT, b VARCHAR(3000000000)) on the fresh database
+   -> "integer value out of range" (field_length is an INT column of sys_schema) after the
+   sys_pages row and the sys_schema row of column a were stored: t exists with column a only *)
+Definition w3_st : stmt :=
+  SCreateTable "t" [mkColDef "a" STNumeric; mkColDef "b" (STVarchar 3000000000)].
+
+Example C14_witness_create_col2 : C14_witness [] w3_st EIntRange.
+Proof.
+  unfold C14_witness.
+  split; [vm_compute; reflexivity|]. split; [vm_compute; reflexivity|].
+  split; [vm_compute; reflexivity|]. split; [vm_compute; reflexivity|].
+  intros H. vm_compute in H. discriminate H.
+Qed.
+
+Example C14_witness_create_col2_visible :
+  st_fetch (e_store (run_stmt (mem (sys_after [])) w3_st)) "t" = Ok ([], [mkFld "" "a"]) /\
+  st_fetch (mem (sys_after [])) "t" = Err ETableNotExist.
+Proof. split; vm_compute; reflexivity. Qed.
+
+Theorem C14_refuted : ~ C14_full_statement.
+Proof.
+  intros H. destruct C14_witness_insert_row2 as (Hs & Hr & Ho & _ & Hne).
+  apply Hne. exact (H _ _ _ _ _ Hs Hr Ho).
+Qed.
+Print Assumptions C14_refuted.
+
+(* ---- non-vacuity of C14_atomic_early: one failing statement of each early kind ---- *)
+Definition nv_state : store :=
+  mem (sys_after
+    [EvStmt (SCreateTable "t" [mkColDef "a" STNumeric; mkColDef "b" (STVarchar 400)]);
+     EvStmt (SInsert "t" [] [[VInt 1; VStr "x"]; [VInt 2; VStr "y"]])]).
+
+Definition early (st : stmt) (e : err) : Prop :=
+  fails_early nv_state st = true /\ e_out (run_stmt nv_state st) = OErr e.
+
+Example nv_rows : st_fetch nv_state "t" =
+  Ok ([(12%N, [VInt 1; VStr "x"]); (13%N, [VInt 2; VStr "y"])], [mkFld "" "a"; mkFld "" "b"]).
+Proof. vm_compute. reflexivity. Qed.
+
+Example nv_unknown_table_insert : early (SInsert "nope" [] [[VInt 1]]) ETableNotExist.
+Proof. split; vm_compute; reflexivity. Qed.
+Example nv_unknown_table_update : early (SUpdate "nope" [("a", XLit (VInt 1))] None) ETableNotExist.
+Proof. split; vm_compute; reflexivity. Qed.
+Example nv_unknown_table_delete : early (SDelete "nope" None) ETableNotExist.
+Proof. split; vm_compute; reflexivity. Qed.
+Example nv_duplicate_table : early (SCreateTable "t" [mkColDef "z" STBoolean]) ETableExists.
+Proof. split; vm_compute; reflexivity. Qed.
+Example nv_column_count : early (SInsert "t" [] [[VInt 1]; [VInt 2; VStr "ok"]]) EColCount.
+Proof. split; vm_compute; reflexivity. Qed.
+Example nv_type_mismatch : early (SInsert "t" [] [[VStr "x"; VStr "y"]]) ETypeMismatch.
+Proof. split; vm_compute; reflexivity. Qed.
+Example nv_int_range : early (SInsert "t" [] [[VInt 2147483648; VStr "y"]; [VInt 3; VStr "z"]]) EIntRange.
+Proof. split; vm_compute; reflexivity. Qed.
+Example nv_oversized_first_row : early (SInsert "t" [] [[VInt 3; VStr (rep_string 500)]]) ERowTooLarge.
+Proof. split; vm_compute; reflexivity. Qed.
+Example nv_oversized_first_row_counters :
+  let s' := e_store (run_stmt nv_state (SInsert "t" [] [[VInt 3; VStr (rep_string 500)]])) in
+  lastKey s' = (lastKey nv_state + 1)%N /\ nextLSN s' = (nextLSN nv_state + 1)%N.
+Proof. split; vm_compute; reflexivity. Qed.
+Example nv_set_from_column : early (SUpdate "t" [("a", XCol (mkCol "" "a"))] None) ETmpUnsupported.
+Proof. split; vm_compute; reflexivity. Qed.
+Example nv_where_unknown_column_delete :
+  early (SDelete "t" (Some (EPred (XCol (mkCol "" "zz")) CEq (XLit (VInt 1))))) EFieldNotFound.
+Proof. split; vm_compute; reflexivity. Qed.
+Example nv_where_unknown_column_update :
+  early (SUpdate "t" [("a", XLit (VInt 5))] (Some (EPred (XCol (mkCol "" "zz")) CEq (XLit (VInt 1))))) EFieldNotFound.
+Proof. split; vm_compute; reflexivity. Qed.
+Example nv_update_first_row_too_large :
+  early (SUpdate "t" [("b", XLit (VStr (rep_string 500)))] None) ERowTooLarge.
+Proof. split; vm_compute; reflexivity. Qed.
+Example nv_update_first_row_type :
+  early (SUpdate "t" [("a", XLit (VStr "no"))] None) ETypeMismatch.
+Proof. split; vm_compute; reflexivity. Qed.
+Example nv_unexecuted_kind : early (SUse "db") EOther.
+Proof. split; vm_compute; reflexivity. Qed.
+
+(* the log part is not vacuous either: the F11a statement fails, leaves row 1 in the cache, and a
+   crash right after it brings back the state a crash right before it would have brought back *)
+Example nv_failed_gone :
+  snd (exec (sys_after w1_evs) w1_st) = OErr EIntRange /\
+  recover (fst (exec (sys_after w1_evs) w1_st)) = recover (sys_after w1_evs).
+Proof. split; [vm_compute; reflexivity | eapply C14_failed_gone_after_crash; vm_compute; reflexivity]. Qed.
+
+(* C14_partial_prefix: added by the refinement engineer, see Proofs/Refine*.v *)
